@@ -1,0 +1,28 @@
+//go:build verif
+
+// Contracts for package kern, checked by /verif/engine (gvc).  This file
+// contains comments only; it is compiled only with the "verif" build tag.
+package kern
+
+// Format 0 kerning pairs (OpenType "kern" table): pair j of a subtable whose
+// pair array starts at file offset b is (left, right, value) at b+6*j.
+// Coverage bits: 0x02 minimum, 0x08 override, otherwise values accumulate.
+//@ spec kL(d seq, b int, j int) int = be16(d, b + 6*j)
+//@ spec kR(d seq, b int, j int) int = be16(d, b + 6*j + 2)
+//@ spec kV(d seq, b int, j int) int = int16(be16(d, b + 6*j + 4))
+//@ spec kmode(flags int) int = ite(flags&2 != 0, 1, ite(flags&8 != 0, 2, 0))
+//@ spec kupd(mode int, prev int, v int) int = ite(mode == 1, ite(prev < v, v, prev), ite(mode == 2, v, int16(prev + v)))
+//@ spec kfold(d seq, b int, j int, l int, r int, mode int, init int) int = ite(j <= 0, init, ite(kL(d, b, j-1) == l && kR(d, b, j-1) == r, kupd(mode, kfold(d, b, j-1, l, r, mode, init), kV(d, b, j-1)), kfold(d, b, j-1, l, r, mode, init)))
+
+//@ func Read(r parser.ReadSeekSizer) (info Info, err error)   props: C15 C02 C18
+//@   requires r != nil && rpos(r) == 0 && fsize(r) >= 0 && fsize(r) <= 1099511627776
+//@   ensures err == nil ==> info != nil
+//@   ensures faults(r) > old(faults(r)) ==> err != nil
+//@   loop 0
+//@     invariant parser.inv(p) && p.r == r && 0 <= i && 0 <= pos && pos <= 4 + 65535*i && res != nil && fresh(res) && faults(r) == old(faults(r)) && fresh(p)
+//@     decreases nTables - i
+//@   loop 1
+//@     invariant parser.inv(p) && p.r == r && 0 <= i && i < nTables && 0 <= pos && pos <= 4 + 65535*(i+1) && res != nil && fresh(res) && faults(r) == old(faults(r)) && fresh(p)
+//@     invariant 0 <= j && j <= nPairs && parser.vpos(p) == pre(parser.vpos(p)) + 6*j
+//@     invariant forall l uint16 :: forall rr uint16 :: res[glyph.Pair{Left: l, Right: rr}] == kfold(file(r), pre(parser.vpos(p)), j, l, rr, kmode(flags), pre(res[glyph.Pair{Left: l, Right: rr}]))
+//@     decreases nPairs - j
